@@ -20,8 +20,8 @@ structure Sent (proc : Tid → Pid) (s : St) : Prop where
   a1 : s.sentMark = none → s.queue.count .sentinel = 0 ∧ s.w ≠ .done
   a2 : ∀ k, s.sentMark = some k →
         (s.queue.count .sentinel = 1 ∧ s.w ≠ .done ∧
-          s.sink.length + (heldOf s.w).length + cntBefore .sentinel s.queue = k) ∨
-        (s.queue.count .sentinel = 0 ∧ s.w = .done ∧ s.sink.length = k)
+          s.handled.length + (heldOf s.w).length + cntBefore .sentinel s.queue = k) ∨
+        (s.queue.count .sentinel = 0 ∧ s.w = .done ∧ s.handled.length = k)
   a3 : ∀ t, t ≠ workerTid → proc t = 0 → preSent (s.pc t) = true → s.sentMark = none
   a4 : ∀ t, t ≠ workerTid → postJoin (s.pc t) = true → s.w = .done
   a5 : s.removed = true → s.w = .done ∧ s.sinkStopped = true
@@ -68,10 +68,10 @@ theorem sent_a2P {proc : Tid → Pid} {s s' : St} {t : Tid} {lab : Lab} (hf : Fi
     (ht : t ≠ workerTid) (hs : stepP proc s t lab = some s') :
     ∀ k, s'.sentMark = some k →
         (s'.queue.count .sentinel = 1 ∧ s'.w ≠ .done ∧
-          s'.sink.length + (heldOf s'.w).length + cntBefore .sentinel s'.queue = k) ∨
-        (s'.queue.count .sentinel = 0 ∧ s'.w = .done ∧ s'.sink.length = k) := by
+          s'.handled.length + (heldOf s'.w).length + cntBefore .sentinel s'.queue = k) ∨
+        (s'.queue.count .sentinel = 0 ∧ s'.w = .done ∧ s'.handled.length = k) := by
   obtain ⟨a1, a2, a3, a4, a5, a6, a7, a8, b1, b2⟩ := h
-  have hlen : s.putLog.length = s.sink.length + (heldOf s.w).length + (msgsOf s.queue).length := by
+  have hlen : s.putLog.length = s.handled.length + (heldOf s.w).length + (msgsOf s.queue).length := by
     unfold Fifo at hf; rw [← hf]; simp [List.length_append]; omega
   clear hf
   have a3t := a3 t ht
